@@ -21,13 +21,18 @@ func (s *Subscription) Cancel() error {
 		return err
 	}
 
+	verifEvent("subcancel:enter", s)
 	c.subscriptionLock.Lock()
 	defer c.subscriptionLock.Unlock()
+	verifEvent("subcancel:locked", s)
+	defer verifEvent("subcancel:unlock", s)
 
 	for key, sub := range c.subscriptions {
 		if sub.q == s.q {
 			c.subscriptions = append(c.subscriptions[:key], c.subscriptions[key+1:]...)
+			verifEvent("subcancel:removed", s, sub)
 			close(s.Feed) // this close is guarded by the controllers subscriptionLock.
+			verifEvent("subcancel:closed", s)
 			return nil
 		}
 	}
